@@ -35,3 +35,22 @@ pub fn all_raw_checks() -> Vec<RawCheck> {
     v.sort_by_key(|t| t.0);
     v
 }
+
+/// C08 cast matrix cells and C04 group layout cells of every generated group family
+pub fn all_cells() -> Vec<harness::Cell> {
+    let mut v = Vec::new();
+    v.extend(hg_gn1::cells()); v.extend(hg_gn2::cells()); v.extend(hg_gn3::cells());
+    #[cfg(feature = "thorough")]
+    v.extend(hg_gn4::cells());
+    v.extend(hg_gopt::cells()); v.extend(hg_gali::cells()); v.extend(hg_gmut::cells()); v.extend(hg_gord::cells());
+    v
+}
+
+pub fn all_layouts() -> Vec<harness::LayoutCell> {
+    let mut v = Vec::new();
+    v.extend(hg_gn1::layouts()); v.extend(hg_gn2::layouts()); v.extend(hg_gn3::layouts());
+    #[cfg(feature = "thorough")]
+    v.extend(hg_gn4::layouts());
+    v.extend(hg_gopt::layouts()); v.extend(hg_gali::layouts()); v.extend(hg_gmut::layouts()); v.extend(hg_gord::layouts());
+    v
+}
